@@ -122,6 +122,32 @@ def mutate(rng, text):
     return text[:i] + "\\" + text[i:], "backslash"
 
 
+IMPORTER_SIG = ("importer of a bad file: its import label is import_internally:<b> (taxon import/personal) while the bad file is "
+                "collected and import:<b> (import/third_party/... or import/standard/...) when it is absent; nothing else differs")
+
+
+def only_importer_deviation(rec_with, rec_without, badset):
+    """True iff the two records differ ONLY by the internal/external status of the imports of bad files: same source and
+    timestamp; un-relabelling the `…_internally:` labels that name a bad file gives exactly the other label dictionary; the
+    taxa differ only under `import/`."""
+    if rec_with["source"] != rec_without["source"] or rec_with["timestamp"] != rec_without["timestamp"]:
+        return False
+    back = {}
+    for name, spans in rec_with["labels"].items():
+        if name.startswith(("import_internally:", "import_module_internally:")):
+            target = name.split(":", 2)[1]
+            if target + ".py" in badset:
+                name = name.replace("_internally:", ":", 1).replace("/", ".")
+        if name in back:
+            return False
+        back[name] = spans
+    if back != rec_without["labels"]:
+        return False
+    ta = {k: v for k, v in rec_with["taxa"].items() if not k.startswith("import/")}
+    tb = {k: v for k, v in rec_without["taxa"].items() if not k.startswith("import/")}
+    return ta == tb
+
+
 def exc_info(e):
     return {"exc": type(e).__name__, "caught": isinstance(e, (SyntaxError, ValueError))}
 
@@ -398,6 +424,9 @@ def stream_dirs(ctx, drv, orc, n_dirs):
         ({"a.py": "import b\nx = 1\n", "b.py": "import a\n", "c.py": "def (:)\n"}, ["c.py"]),
         ({"a.py": "x = $\n"}, ["a.py"]),
         ({"a.py": "x = 1\n", "b.py": "# just a comment\n"}, ["b.py"]),
+        # an importer of the bad file (review finding: internality depends on the presence of the file)
+        ({"g.py": "import b\n", "b.py": "x = (1,\n"}, ["b.py"]),
+        ({"g.py": "from pkg.b import f\nimport os\nprint(f(os.sep))\n", "pkg/b.py": "def f(:\n", "h.py": "x = 1\n"}, ["pkg/b.py"]),
         # import cycles reached from a program OUTSIDE the cycle whose name sorts before its members
         ({"broken.py": "x = (1,\n", "main.py": "import utils\nprint(1)\n", "utils.py": "import vectors\n",
           "vectors.py": "import utils\n"}, ["broken.py"]),
@@ -460,12 +489,34 @@ def stream_dirs(ctx, drv, orc, n_dirs):
                             names = list(w["json"]["programs"][p]["labels"])
                             found = drv.call("c11.relabel", paths=[], names=names)["search"]
                             imports_bad = any(m is not None and m.replace(".", "/") + ".py" in badset for m in found)
-                            if not imports_bad and v["json"]["programs"][p] != w["json"]["programs"][p]:
+                            rec_with, rec_without = v["json"]["programs"][p], w["json"]["programs"][p]
+                            if rec_with == rec_without:
+                                continue
+                            if not imports_bad:
                                 ctx.violations.append({
                                     "what": f"record of {p} changes when the bad files are removed",
                                     "replay": {"kind": "others", "files": files, "bad": bad, "cleanup": strategy,
-                                               "impl": {"with": v["json"]["programs"][p], "without": w["json"]["programs"][p]},
+                                               "impl": {"with": rec_with, "without": rec_without},
                                                "model": "C14_others_unaffected: equal records", "spec": "equal records"}})
+                                continue
+                            # p imports a bad file: the property text has no proviso ("every other program gets the same
+                            # record as if the bad file were absent"), so any difference is a violation. The ONE expected
+                            # deviation (internality is decided by the presence of the file) gets the narrow signature.
+                            ctx.dist("others.importer_of_bad_file")
+                            sig = IMPORTER_SIG if only_importer_deviation(rec_with, rec_without, badset) else None
+                            small_files = {p: files[p], **{b: files[b] for b in bad if b in files}}
+                            ctx.violations.append({
+                                "what": f"record of {p}, which imports a bad file, differs from its record when the bad file is absent"
+                                        + ("" if sig else " in MORE than the internal/external status of that import"),
+                                "signature": sig,
+                                "replay": {"kind": "others-importer", "files": files, "bad": bad, "program": p, "cleanup": strategy,
+                                           "minimal": small_files,
+                                           "impl": {"with": {"labels": sorted(n for n in rec_with["labels"] if "import" in n),
+                                                             "taxa": sorted(n for n in rec_with["taxa"] if n.startswith("import/"))},
+                                                    "without": {"labels": sorted(n for n in rec_without["labels"] if "import" in n),
+                                                                "taxa": sorted(n for n in rec_without["taxa"] if n.startswith("import/"))}},
+                                           "model": "Props/C14.lean C14_importer_relabel: import_internally:<b> with the file, import:<b> without",
+                                           "spec": "C14 text: the same record as if the bad file were absent"}})
             elif v["kind"] == "broken":
                 pass
             else:
